@@ -257,7 +257,7 @@ func (torrent *Torrent) MetadataComplete() error {
 	} else {
 		torrent.Name = info.Name
 	}
-	if torrent.Name == "" {
+	if torrent.Name == "" || len(path.Parse(torrent.Name)) == 0 {
 		return errors.New("torrent has no name")
 	}
 	torrent.Pieces.MetadataComplete(info.PieceLength, length)
